@@ -36,7 +36,7 @@ def run(ctx):
     F, R = ctx.facts, ctx.report
     R.explanation = ("WIRE-L: len() equals the emitted byte count per well-formed shape; TAB-N: Message::new records the serialised payload length, the extended-header flag, and the verbose flag / "
                      "argument count its payload kind requires; LEN: byte_len = payload_length + header lengths by flag; STORAGE: add_storage_header only sets the storage header from the argument and the header ECU id (default 'ECU'); "
-                     "VALID: the validity table for Bool / Float kinds.")
+                     "VALID: the validity table for Bool / Float kinds; TAB: message-info, header-type and control-id code tables decode and re-encode consistently (shared with C14 / C16).")
     R.not_decided = ["'parses back to an equal message' beyond the structural conditions (layouts vs spec: WIRE, parser-side consumption: C04)", "the current time used by add_storage_header(None)"]
     for p in (NEW, BYTE_LEN, OVERALL, ADD_SH, VALID, lib_wire.ARG_AS_BYTES, lib_wire.ARG_LEN):
         if F.body(p) is None:
@@ -46,6 +46,12 @@ def run(ctx):
     lib_wire.check_len(ctx, rows, "WIRE-L")
     R.floor("WIRE-W.shape", 40)
     R.floor("WIRE-L.pair", 40)
+    # a built message parses back to an equal one only if every code field it carries survives encode-then-decode
+    from rules import lib_codes
+    lib_codes.check_msin(ctx)
+    lib_codes.check_msin_compose(ctx)
+    lib_codes.check_htyp(ctx)
+    lib_codes.check_ctrl_id(ctx)
     tab_n(ctx)
     overall_len(ctx)
     storage(ctx)
